@@ -102,6 +102,13 @@ inductive ORes
   | dropped (o : OSt)       -- a write failed: `safewrite` calls `dropped()`
   deriving Repr, DecidableEq
 
+/-- `smtpto` as the outcome leaves it -/
+def ORes.ost : ORes → OSt
+  | .sent o => o
+  | .partialLine o => o
+  | .tempRead o => o
+  | .dropped o => o
+
 /-- the loop, one iteration per `substdio_get` (the state says at which of the three sites) -/
 def oloop : Nat → ISt → OSt → RSt → ORes
   | 0, _, o, _ => .tempRead o     -- not reached: fuel = stream length + 2
